@@ -160,6 +160,8 @@ def veto_case(draw):
             "charge": draw(st.sampled_from([1.0, -1.0, 2.0, -0.5])), "target_charge": draw(st.sampled_from([1.0, -1.0])),
             "beta": draw(st.sampled_from([0.5, 1.0, 2.0])), "expo": draw(gen.log_uniform(1e-2, 3.0)),
             "ts": [float(draw(st.integers(0, 20))), draw(gen.floats(0.0, 0.999))],
+            "composite": draw(st.booleans()),
+            "leaf_shift": [draw(gen.floats(-0.7, 0.7)) for _ in range(3)],
             "probe_rows": draw(st.lists(st.integers(0, 10 ** 6), min_size=2, max_size=4)),
             "target_frac": [draw(gen.floats(0.1, 0.9)) for _ in range(3)]}
 
@@ -186,13 +188,20 @@ def body_veto(rec, **c):
         hypercubic_setting.HypercubicSetting(beta=c["beta"], dimension=3, system_length=lengths[0])
     else:
         hypercuboid_setting.HypercuboidSetting(beta=c["beta"], dimension=3, system_lengths=list(lengths))
+    composite = bool(c.get("composite"))
     setting.set_number_of_root_nodes(2)
-    setting.set_number_of_nodes_per_root_node(1)
-    setting.set_number_of_node_levels(1)
+    setting.set_number_of_nodes_per_root_node(2 if composite else 1)
+    setting.set_number_of_node_levels(2 if composite else 1)
     cells = CuboidPeriodicCells(cells_per_side=list(per), neighbor_layers=1)
     pot = InversePowerPotential(power=1.0, prefactor=1.0)
     Estimator = stubs.make_estimator_class()
-    handler = mod_leaf.LeafUnitCellVetoEventHandler(estimator=Estimator(pot, bound_function), charge="q")
+    if composite:
+        from jellyfysh.event_handler.composite_object_cell_veto_event_handler import CompositeObjectCellVetoEventHandler
+        from jellyfysh.lifting.inside_first_lifting import InsideFirstLifting
+        handler = CompositeObjectCellVetoEventHandler(estimator=Estimator(pot, bound_function),
+                                                      lifting=InsideFirstLifting(), charge="q")
+    else:
+        handler = mod_leaf.LeafUnitCellVetoEventHandler(estimator=Estimator(pot, bound_function), charge="q")
     with contextlib.redirect_stdout(io.StringIO()):
         handler.initialize(cells, 1)
     d, speed, qa = c["direction"], c["speed"], c["charge"]
@@ -217,8 +226,23 @@ def body_veto(rec, **c):
         return
     want_time_disp = (c["expo"] / c["beta"]) / (total * abs(qa) * speed)
 
+    def make_in_state():
+        if not composite:
+            return Node(Unit((0,), list(apos), {"q": qa}, list(v), Time(*c["ts"])), weight=1)
+        # a composite object registered (cell level 1) in the cell of its centre `apos`; the active point mass sits up to
+        # 0.7 cell sides away from the centre, i.e. often in a neighbouring cell or across the periodic boundary
+        side = [lengths[i] / per[i] for i in range(3)]
+        lp = [setting.periodic_boundaries.correct_position_entry(apos[i] + c["leaf_shift"][i] * side[i], i)
+              for i in range(3)]
+        op = [setting.periodic_boundaries.correct_position_entry(apos[i] - c["leaf_shift"][i] * side[i], i)
+              for i in range(3)]
+        root = Node(Unit((0,), list(apos), None, [x * 0.5 for x in v], Time(*c["ts"])), weight=1)
+        root.add_child(Node(Unit((0, 0), lp, {"q": qa}, list(v), Time(*c["ts"])), weight=0.5))
+        root.add_child(Node(Unit((0, 1), op, {"q": -qa}, None, None), weight=0.5))
+        return root
+
     def propose(row, u):
-        node = Node(Unit((0,), list(apos), {"q": qa}, list(v), Time(*c["ts"])), weight=1)
+        node = make_in_state()
         s_w = Scripted(choices=[row], uniforms=[u])
         s_cv = Scripted(expos=[c["expo"]])
         old = (mod_w.random, mod_cv.random)
@@ -257,7 +281,7 @@ def body_veto(rec, **c):
                          off, acell.identifier, prob.get(off, 0.0), want, per, d, qa), c)
     # confirmation against the bound stored for the sampled offset
     nt = any(x in (0, per[i] - 1) for i, x in enumerate(acell.identifier))
-    for row in c["probe_rows"]:
+    for row in ([] if composite else c["probe_rows"]):
         t, tcell, _, node = propose(row % rows, 0.37)
         off = offset_of(tcell)
         bound = offsets[off] * abs(qa)
@@ -287,9 +311,12 @@ def body_veto(rec, **c):
     # empty target cell: the out-state is the unchanged in-state
     _, _, _, nd = propose(0, 0.5)
     out = handler.send_out_state(None)
-    if len(out) != 1 or out[0].value.velocity != v:
+    if len(out) != 1 or (not composite and out[0].value.velocity != v):
         rec.fail("veto/empty-target", "proposal into an empty cell changed the active unit", c)
-    rec.case("veto/%s/%s" % ("face" if nt else "interior", "negative-charge" if qa < 0 else "positive-charge"),
+    straddles = composite and cells.position_to_cell(list(make_in_state().children[0].value.position)) is not acell
+    nt = nt or straddles
+    rec.case("veto/%s%s/%s" % ("composite-straddling/" if straddles else ("composite/" if composite else ""),
+                               "face" if nt else "interior", "negative-charge" if qa < 0 else "positive-charge"),
              (repr(sorted(c.items())),), nt, {"grid": per, "active_cell": acell.identifier, "offsets": len(offsets),
                                                "rows": rows, "direction": d, "charge": qa})
 
